@@ -1,26 +1,2174 @@
-//! C07 - not built yet.
-use crate::engine::{PropertyInfo, RunCtx};
+//! C07 - process image: inputs latched once per cycle, outputs published once at the end,
+//! direct addresses are local (little-endian, bit n of byte b), a faulted cycle publishes
+//! no program-computed outputs.
+//!
+//! Search "cycle": a generated CONFIGURATION (1-4 programs over 0-3 periodic tasks and the
+//! background group, 1-12 AT-declared variables over %I/%Q/%M in every I/O-capable
+//! elementary type, overlapping / touching / image-end-crossing spans, copy programs with
+//! partial accesses and an optional input-triggered division by zero) is compiled with
+//! `TestHarness::from_source`, 1-3 instrumented `IoDriver`s are registered whose owned input
+//! bytes change on every `read_inputs` call and which log every call (with a copy of the
+//! image, and - when a debug control is attached - the runtime events drained at that
+//! moment) into one shared, ordered log. Between cycles direct `IoInterface::read/write`
+//! operations are issued at generated addresses. Oracle: a byte-array model of the three
+//! images plus an interpreter for the copy programs.
+//!
+//! Search "direct": operation sequences (resize / write / read / mistyped write) on a bare
+//! `IoInterface` against the same byte-array model.
+
+use std::cell::RefCell;
+use std::sync::atomic::{AtomicBool, Ordering};
+use std::sync::{Arc, Mutex};
+
+use proptest::prelude::*;
+use serde::{Deserialize, Serialize};
+use serde_json::json;
+use trust_runtime::debug::{DebugControl, RuntimeEvent};
+use trust_runtime::error::RuntimeError;
+use trust_runtime::harness::TestHarness;
+use trust_runtime::io::{IoAddress, IoDriver, IoInterface, IoSafeState};
+use trust_runtime::value::{Duration, Value};
+use trust_runtime::watchdog::FaultPolicy;
+use trust_runtime::Runtime;
+
+use crate::engine::tape::{Reader, Tape};
+use crate::engine::{Probe, PropertyInfo, RunCtx};
 
 pub fn info() -> PropertyInfo {
     PropertyInfo {
         id: "C07",
         level: "exploration",
-        rule: "not built yet",
-        assumptions: &[],
-        workers_quick: 1,
-        workers_thorough: 1,
+        rule: "search 'cycle': generated CONFIGURATIONs (1-4 copy programs over 0-3 periodic tasks + background group, 1-12 AT variables over %I/%Q/%M in all 17 I/O-capable elementary types, byte 0-64) run for 1-4 cycles against 1-3 instrumented drivers whose input bytes change on every read_inputs call, with direct IoInterface reads/writes between cycles; search 'direct': resize/read/write sequences on a bare IoInterface. Non-trivial (cycle) = >= 2 bindings that overlap or touch, or programs of >= 2 different tasks reading the same input bytes, or a multi-byte span crossing the image length it met; non-trivial (direct) = a multi-byte or bit access into a non-zero image or across its end; distinct by SHA-256 of the case",
+        assumptions: &[
+            "a byte beyond the current image length reads as 0 (an image byte that was never written is 0) and a write beyond it grows the image; image lengths themselves are not asserted (comparison is modulo trailing zero bytes)",
+            "drivers own disjoint input bytes; the order in which several drivers are called is not asserted",
+            "where several output/marker bindings cover the same byte the published byte may come from any of them (any write order is accepted)",
+            "every output/marker variable has one writer program and programs exchange no data, so the oracle does not depend on the order of tasks (that is C06)",
+            "all periodic tasks share one interval and the clock advances by 0 or exactly that interval per cycle",
+        ],
+        workers_quick: 8,
+        workers_thorough: 16,
         address_space_limit: 0,
         watchdog_quick_s: 600,
-        watchdog_thorough_s: 3600,
+        watchdog_thorough_s: 7200,
         run,
     }
 }
 
-/// Helper subcommands (child processes of this check); None = not mine.
-pub fn helper(_args: &[String]) -> Option<i32> {
-    None
+// ---------------------------------------------------------------------------------------
+// types and encodings
+// ---------------------------------------------------------------------------------------
+
+#[derive(Clone, Copy, Debug, PartialEq, Eq, Hash, Serialize, Deserialize)]
+pub enum Ty {
+    Bool,
+    SInt,
+    USInt,
+    Byte,
+    Char,
+    Int,
+    UInt,
+    Word,
+    WChar,
+    DInt,
+    UDInt,
+    DWord,
+    Real,
+    LInt,
+    ULInt,
+    LWord,
+    LReal,
+}
+
+const ALL_TYPES: [Ty; 17] = [
+    Ty::Bool,
+    Ty::SInt,
+    Ty::USInt,
+    Ty::Byte,
+    Ty::Char,
+    Ty::Int,
+    Ty::UInt,
+    Ty::Word,
+    Ty::WChar,
+    Ty::DInt,
+    Ty::UDInt,
+    Ty::DWord,
+    Ty::Real,
+    Ty::LInt,
+    Ty::ULInt,
+    Ty::LWord,
+    Ty::LReal,
+];
+
+const REAL_LITS: [(&str, f32); 6] = [
+    ("0.0", 0.0),
+    ("1.5", 1.5),
+    ("-0.25", -0.25),
+    ("1024.0", 1024.0),
+    ("-65536.5", -65536.5),
+    ("1.0E10", 1.0e10),
+];
+const LREAL_LITS: [(&str, f64); 7] = [
+    ("0.0", 0.0),
+    ("1.5", 1.5),
+    ("-0.25", -0.25),
+    ("1024.0", 1024.0),
+    ("-65536.5", -65536.5),
+    ("1.0E10", 1.0e10),
+    ("123456789.0", 123456789.0),
+];
+
+impl Ty {
+    fn bits(self) -> u32 {
+        match self {
+            Ty::Bool => 1,
+            Ty::SInt | Ty::USInt | Ty::Byte | Ty::Char => 8,
+            Ty::Int | Ty::UInt | Ty::Word | Ty::WChar => 16,
+            Ty::DInt | Ty::UDInt | Ty::DWord | Ty::Real => 32,
+            Ty::LInt | Ty::ULInt | Ty::LWord | Ty::LReal => 64,
+        }
+    }
+    /// Bytes of the image the type's span touches (a bit lives in one byte).
+    fn span(self) -> usize {
+        (self.bits() as usize).div_ceil(8)
+    }
+    fn mask(self) -> u64 {
+        if self.bits() == 64 {
+            u64::MAX
+        } else {
+            (1u64 << self.bits()) - 1
+        }
+    }
+    fn st(self) -> &'static str {
+        match self {
+            Ty::Bool => "BOOL",
+            Ty::SInt => "SINT",
+            Ty::USInt => "USINT",
+            Ty::Byte => "BYTE",
+            Ty::Char => "CHAR",
+            Ty::Int => "INT",
+            Ty::UInt => "UINT",
+            Ty::Word => "WORD",
+            Ty::WChar => "WCHAR",
+            Ty::DInt => "DINT",
+            Ty::UDInt => "UDINT",
+            Ty::DWord => "DWORD",
+            Ty::Real => "REAL",
+            Ty::LInt => "LINT",
+            Ty::ULInt => "ULINT",
+            Ty::LWord => "LWORD",
+            Ty::LReal => "LREAL",
+        }
+    }
+    fn letter(self) -> char {
+        match self.bits() {
+            1 => 'X',
+            8 => 'B',
+            16 => 'W',
+            32 => 'D',
+            _ => 'L',
+        }
+    }
+    fn is_bitstring(self) -> bool {
+        matches!(self, Ty::Byte | Ty::Word | Ty::DWord | Ty::LWord)
+    }
+}
+
+/// The bit-string type of a partial access kind (0 = %X, 1 = %B, 2 = %W, 3 = %D).
+fn part_ty(kind: u8) -> Ty {
+    match kind {
+        0 => Ty::Bool,
+        1 => Ty::Byte,
+        2 => Ty::Word,
+        _ => Ty::DWord,
+    }
+}
+
+fn part_letter(kind: u8) -> char {
+    match kind {
+        0 => 'X',
+        1 => 'B',
+        2 => 'W',
+        _ => 'D',
+    }
+}
+
+fn value_bits(v: &Value) -> Option<(Ty, u64)> {
+    Some(match v {
+        Value::Bool(b) => (Ty::Bool, *b as u64),
+        Value::SInt(x) => (Ty::SInt, *x as u8 as u64),
+        Value::USInt(x) => (Ty::USInt, *x as u64),
+        Value::Byte(x) => (Ty::Byte, *x as u64),
+        Value::Char(x) => (Ty::Char, *x as u64),
+        Value::Int(x) => (Ty::Int, *x as u16 as u64),
+        Value::UInt(x) => (Ty::UInt, *x as u64),
+        Value::Word(x) => (Ty::Word, *x as u64),
+        Value::WChar(x) => (Ty::WChar, *x as u64),
+        Value::DInt(x) => (Ty::DInt, *x as u32 as u64),
+        Value::UDInt(x) => (Ty::UDInt, *x as u64),
+        Value::DWord(x) => (Ty::DWord, *x as u64),
+        Value::Real(x) => (Ty::Real, x.to_bits() as u64),
+        Value::LInt(x) => (Ty::LInt, *x as u64),
+        Value::ULInt(x) => (Ty::ULInt, *x),
+        Value::LWord(x) => (Ty::LWord, *x),
+        Value::LReal(x) => (Ty::LReal, x.to_bits()),
+        _ => return None,
+    })
+}
+
+/// The `Value` a direct address of `size` (0 = X .. 4 = L) carries.
+fn raw_value(size: u8, bits: u64) -> Value {
+    match size {
+        0 => Value::Bool(bits & 1 == 1),
+        1 => Value::Byte(bits as u8),
+        2 => Value::Word(bits as u16),
+        3 => Value::DWord(bits as u32),
+        _ => Value::LWord(bits),
+    }
+}
+
+fn size_bits(size: u8) -> u32 {
+    match size {
+        0 => 1,
+        1 => 8,
+        2 => 16,
+        3 => 32,
+        _ => 64,
+    }
+}
+
+fn size_letter(size: u8) -> char {
+    ['X', 'B', 'W', 'D', 'L'][size.min(4) as usize]
+}
+
+fn lit_text(ty: Ty, bits: u64) -> String {
+    match ty {
+        Ty::Bool => if bits & 1 == 1 { "TRUE" } else { "FALSE" }.to_string(),
+        Ty::SInt => format!("SINT#{}", bits as u8 as i8),
+        Ty::Int => format!("INT#{}", bits as u16 as i16),
+        Ty::DInt => format!("DINT#{}", bits as u32 as i32),
+        Ty::LInt => format!("LINT#{}", bits as i64),
+        Ty::USInt => format!("USINT#{}", bits as u8),
+        Ty::UInt => format!("UINT#{}", bits as u16),
+        Ty::UDInt => format!("UDINT#{}", bits as u32),
+        Ty::ULInt => format!("ULINT#{}", bits),
+        Ty::Byte => format!("BYTE#16#{:02X}", bits as u8),
+        Ty::Word => format!("WORD#16#{:04X}", bits as u16),
+        Ty::DWord => format!("DWORD#16#{:08X}", bits as u32),
+        Ty::LWord => format!("LWORD#16#{:016X}", bits),
+        Ty::Char => format!("CHAR#'{}'", bits as u8 as char),
+        Ty::WChar => format!("WCHAR#\"{}\"", bits as u8 as char),
+        Ty::Real => {
+            let t = REAL_LITS
+                .iter()
+                .find(|(_, v)| v.to_bits() as u64 == bits)
+                .map(|(t, _)| *t)
+                .unwrap_or("0.0");
+            format!("REAL#{t}")
+        }
+        Ty::LReal => {
+            let t = LREAL_LITS
+                .iter()
+                .find(|(_, v)| v.to_bits() == bits)
+                .map(|(t, _)| *t)
+                .unwrap_or("0.0");
+            format!("LREAL#{t}")
+        }
+    }
+}
+
+/// A literal the toolchain accepts for `ty` (64-bit magnitudes stay within i64, see notes).
+fn gen_lit(ty: Ty, r: &mut Reader) -> u64 {
+    match ty {
+        Ty::Bool => r.pick(2) as u64,
+        Ty::Char | Ty::WChar => {
+            let i = r.pick(52) as u8;
+            (if i < 26 { b'A' + i } else { b'a' + (i - 26) }) as u64
+        }
+        Ty::Real => REAL_LITS[r.pick(REAL_LITS.len())].1.to_bits() as u64,
+        Ty::LReal => LREAL_LITS[r.pick(LREAL_LITS.len())].1.to_bits(),
+        Ty::SInt | Ty::Int | Ty::DInt | Ty::LInt => {
+            let b = ty.bits();
+            let min = if b == 64 { i64::MIN + 1 } else { -(1i64 << (b - 1)) };
+            let max = if b == 64 { i64::MAX } else { (1i64 << (b - 1)) - 1 };
+            let v = match r.pick(8) {
+                0 => 0,
+                1 => 1,
+                2 => -1,
+                3 => min,
+                4 => max,
+                5 => 0x0102_0304_0506_0708i64 & max,
+                _ => r.range_i64(min, max),
+            };
+            (v as u64) & ty.mask()
+        }
+        _ => {
+            let max = if ty.bits() == 64 { i64::MAX as u64 } else { ty.mask() };
+            let v = match r.pick(8) {
+                0 => 0,
+                1 => 1,
+                2 => max,
+                3 => 0xA55A_C33C_0FF0_8001u64,
+                4 => 0x0102_0304_0506_0708u64,
+                _ => r.u64(),
+            };
+            v & max
+        }
+    }
+}
+
+// ---------------------------------------------------------------------------------------
+// case
+// ---------------------------------------------------------------------------------------
+
+/// 0 = %I, 1 = %Q, 2 = %M
+type Area = u8;
+
+fn area_letter(a: Area) -> char {
+    ['I', 'Q', 'M'][a.min(2) as usize]
+}
+
+#[derive(Clone, Debug, PartialEq, Serialize, Deserialize)]
+pub struct Addr {
+    pub area: Area,
+    pub byte: u16,
+    pub bit: u8,
+}
+
+#[derive(Clone, Debug, PartialEq, Serialize, Deserialize)]
+pub struct VarDecl {
+    pub name: String,
+    pub ty: Ty,
+    pub at: Option<Addr>,
+    pub init: Option<u64>,
+    /// declared `AT %I*` / `%Q*` / `%M*` in the program, located by VAR_CONFIG
+    #[serde(default)]
+    pub via_config: bool,
+}
+
+/// scope 0 = VAR_GLOBAL of the configuration, k + 1 = VAR of program k.
+#[derive(Clone, Copy, Debug, PartialEq, Eq, Serialize, Deserialize)]
+pub struct VarId {
+    pub scope: u8,
+    pub idx: u16,
+}
+
+#[derive(Clone, Debug, PartialEq, Serialize, Deserialize)]
+pub enum Src {
+    Var(VarId),
+    Lit(u64),
+    /// `var.%<kind><idx>`
+    Part { var: VarId, kind: u8, idx: u8 },
+}
+
+#[derive(Clone, Debug, PartialEq, Serialize, Deserialize)]
+pub enum Stmt {
+    Assign { dst: VarId, src: Src },
+    AssignPart { dst: VarId, kind: u8, idx: u8, src: Src },
+    /// `IF cond THEN ftmp := DINT#1 / fz; END_IF;` (fz = 0): faults iff the input is TRUE.
+    FaultIf { cond: VarId },
+}
+
+#[derive(Clone, Debug, PartialEq, Serialize, Deserialize)]
+pub struct Prog {
+    pub task: Option<u8>,
+    /// indices of the globals this program declares VAR_EXTERNAL
+    pub ext: Vec<u16>,
+    pub vars: Vec<VarDecl>,
+    pub body: Vec<Stmt>,
+}
+
+#[derive(Clone, Debug, PartialEq, Serialize, Deserialize)]
+pub struct DirectOp {
+    pub write: bool,
+    pub area: Area,
+    /// 0 = X, 1 = B, 2 = W, 3 = D, 4 = L
+    pub size: u8,
+    pub byte: u16,
+    pub bit: u8,
+    pub value: u64,
+    /// for writes: carry a `Value` of this other size instead (must not be accepted silently
+    /// outside the span)
+    pub mistyped: Option<u8>,
+}
+
+#[derive(Clone, Debug, PartialEq, Serialize, Deserialize)]
+pub struct CycleSpec {
+    /// advance the clock by the task interval (all tasks due) or not at all (none due)
+    pub step: bool,
+    pub ops: Vec<DirectOp>,
+    /// this driver's read_inputs fails in this cycle
+    pub fail_read: Option<u8>,
+}
+
+#[derive(Clone, Debug, PartialEq, Serialize, Deserialize)]
+pub struct Case {
+    /// initial image lengths (inputs, outputs, memory)
+    pub len: [u8; 3],
+    pub bare: bool,
+    pub globals: Vec<VarDecl>,
+    pub progs: Vec<Prog>,
+    /// task priorities
+    pub tasks: Vec<u8>,
+    pub driver_seeds: Vec<u32>,
+    /// owner of input byte b: driver index or 255 = nobody
+    pub owner: Vec<u8>,
+    pub cycles: Vec<CycleSpec>,
+    pub debug: bool,
+    /// Some = FaultPolicy::SafeHalt with these (size, byte, bit, value) %Q safe values
+    pub safe: Option<Vec<(u8, u16, u8, u64)>>,
+}
+
+const MAX_BYTE: u16 = 64;
+const OWNER_LEN: usize = 96;
+
+struct Gen<'a, 'b> {
+    r: &'a mut Reader<'b>,
+    len: [u8; 3],
+    used: Vec<(Area, usize, usize)>,
+}
+
+impl Gen<'_, '_> {
+    fn addr(&mut self, area: Area, ty: Ty) -> Addr {
+        let w = ty.span();
+        let same: Vec<(usize, usize)> = self
+            .used
+            .iter()
+            .filter(|u| u.0 == area)
+            .map(|u| (u.1, u.2))
+            .collect();
+        let len = self.len[area as usize] as usize;
+        let mode = self.r.weighted(&[4, 2, 2, 1, 1, 2]);
+        let mut byte: i64 = match mode {
+            1 if !same.is_empty() => same[self.r.pick(same.len())].0 as i64,
+            2 if !same.is_empty() => same[self.r.pick(same.len())].1 as i64,
+            3 if !same.is_empty() => same[self.r.pick(same.len())].0 as i64 - w as i64,
+            4 if !same.is_empty() => same[self.r.pick(same.len())].0 as i64 + 1,
+            5 if len > 0 => len as i64 - 1 - self.r.pick(w.max(2) - 1) as i64,
+            _ => self.r.pick(MAX_BYTE as usize + 1) as i64,
+        };
+        byte = byte.clamp(0, MAX_BYTE as i64);
+        let bit = if ty == Ty::Bool { self.r.pick(8) as u8 } else { 0 };
+        self.used.push((area, byte as usize, byte as usize + w));
+        Addr {
+            area,
+            byte: byte as u16,
+            bit,
+        }
+    }
+}
+
+fn mix(a: u32, b: u32, c: u32) -> u32 {
+    let mut x = a
+        .wrapping_mul(0x9E37_79B1)
+        .wrapping_add(b.wrapping_mul(0x85EB_CA77))
+        .wrapping_add(c.wrapping_mul(0xC2B2_AE3D))
+        .wrapping_add(0x27D4_EB2F);
+    x ^= x >> 15;
+    x = x.wrapping_mul(0x2C1B_3C6D);
+    x ^= x >> 12;
+    x = x.wrapping_mul(0x297A_2D39);
+    x ^= x >> 15;
+    x
+}
+
+/// The byte an instrumented driver puts at position `b` on its `call`-th read: always
+/// different from the byte it finds there.
+fn stream_byte(seed: u32, call: u32, b: usize, prev: u8) -> u8 {
+    prev.wrapping_add(1 + (mix(seed, call, b as u32) % 255) as u8)
+}
+
+/// A rare event (about 1 in `n`) decided by two tape words; never on a zero/exhausted tape.
+/// (The tape's words are often 0 or MAX, so a single-word `chance` cannot be rare.)
+fn rare(r: &mut Reader, n: u32) -> bool {
+    let a = r.word();
+    let b = r.word();
+    (a != 0 || b != 0) && mix(a, b, 0x5EED) % n == 0
+}
+
+fn var_decl<'a>(case: &'a Case, id: VarId) -> &'a VarDecl {
+    if id.scope == 0 {
+        &case.globals[id.idx as usize]
+    } else {
+        &case.progs[id.scope as usize - 1].vars[id.idx as usize]
+    }
+}
+
+pub fn gen_case(t: &Tape) -> Case {
+    let mut reader = Reader::new(t);
+    let r = &mut reader;
+    let nprogs = 1 + r.weighted(&[3, 4, 3, 2]);
+    let ntasks = r.weighted(&[2, 3, 4, 2]).min(nprogs);
+    let mut len = [0u8; 3];
+    for l in len.iter_mut() {
+        *l = match r.weighted(&[1, 3, 4]) {
+            0 => 0,
+            1 => 1 + r.pick(16) as u8,
+            _ => 17 + r.pick(56) as u8,
+        };
+    }
+    let nfocus = 1 + r.pick(3);
+    let focus: Vec<Ty> = (0..nfocus).map(|_| ALL_TYPES[r.pick(17)]).collect();
+    let tasks: Vec<u8> = (0..ntasks).map(|_| r.pick(4) as u8).collect();
+    let bare = nprogs == 1 && ntasks == 0 && r.chance(2, 3);
+    let mut progs: Vec<Prog> = (0..nprogs)
+        .map(|k| Prog {
+            task: if ntasks == 0 || r.chance(1, 4) {
+                None
+            } else if r.chance(1, 2) {
+                Some((k % ntasks) as u8)
+            } else {
+                Some(r.pick(ntasks) as u8)
+            },
+            ext: Vec::new(),
+            vars: Vec::new(),
+            body: Vec::new(),
+        })
+        .collect();
+    let mut globals: Vec<VarDecl> = Vec::new();
+    let mut global_owner: Vec<Option<usize>> = Vec::new();
+    let mut g = Gen {
+        r,
+        len,
+        used: Vec::new(),
+    };
+
+    // AT-declared variables
+    let n_at = 1 + g.r.pick(12);
+    for _ in 0..n_at {
+        let ty = if g.r.chance(3, 4) {
+            focus[g.r.pick(focus.len())]
+        } else {
+            ALL_TYPES[g.r.pick(17)]
+        };
+        let area = g.r.weighted(&[4, 4, 2]) as Area;
+        let at = g.addr(area, ty);
+        let init = if area != 0 && g.r.chance(1, 4) {
+            Some(gen_lit(ty, g.r))
+        } else {
+            None
+        };
+        if !bare && g.r.chance(if area == 0 { 4 } else { 2 }, 8) {
+            let name = format!("g{}", globals.len());
+            globals.push(VarDecl {
+                name,
+                ty,
+                at: Some(at),
+                init,
+                via_config: false,
+            });
+            global_owner.push(if area == 0 {
+                None
+            } else {
+                Some(g.r.pick(nprogs))
+            });
+        } else {
+            let k = g.r.pick(nprogs);
+            let name = format!("v{}", progs[k].vars.len());
+            let via_config = !bare && g.r.chance(1, 6);
+            progs[k].vars.push(VarDecl {
+                name,
+                ty,
+                at: Some(at),
+                init,
+                via_config,
+            });
+        }
+    }
+    // VAR_EXTERNAL: input globals are shared, other globals belong to their one writer
+    for (gi, decl) in globals.iter().enumerate() {
+        for (k, p) in progs.iter_mut().enumerate() {
+            let import = match global_owner[gi] {
+                Some(o) => o == k,
+                None => g.r.chance(7, 8),
+            };
+            if import {
+                p.ext.push(gi as u16);
+            }
+        }
+        let _ = decl;
+    }
+    // optional fault trigger
+    let fault_prog = if g.r.chance(1, 3) {
+        Some(g.r.pick(nprogs))
+    } else {
+        None
+    };
+    if let Some(k) = fault_prog {
+        let has_bool_input = progs[k]
+            .vars
+            .iter()
+            .any(|v| v.ty == Ty::Bool && v.at.as_ref().map(|a| a.area) == Some(0))
+            || progs[k]
+                .ext
+                .iter()
+                .any(|gi| globals[*gi as usize].ty == Ty::Bool && globals[*gi as usize].at.as_ref().map(|a| a.area) == Some(0));
+        if !has_bool_input {
+            let at = g.addr(0, Ty::Bool);
+            let name = format!("v{}", progs[k].vars.len());
+            progs[k].vars.push(VarDecl {
+                name,
+                ty: Ty::Bool,
+                at: Some(at),
+                init: None,
+                via_config: false,
+            });
+        }
+    }
+    // locals: copies of the visible inputs, plus a few free ones
+    // (program, local, the input it copies)
+    let mut copies: Vec<(usize, VarId, VarId)> = Vec::new();
+    for k in 0..nprogs {
+        let mut want: Vec<(Ty, Option<VarId>)> = Vec::new();
+        for (i, v) in progs[k].vars.iter().enumerate() {
+            if v.at.as_ref().map(|a| a.area) == Some(0) {
+                for _ in 0..g.r.weighted(&[1, 2, 1]) {
+                    want.push((
+                        v.ty,
+                        Some(VarId {
+                            scope: k as u8 + 1,
+                            idx: i as u16,
+                        }),
+                    ));
+                }
+            }
+        }
+        for gi in progs[k].ext.iter() {
+            let d = &globals[*gi as usize];
+            if d.at.as_ref().map(|a| a.area) == Some(0) {
+                for _ in 0..g.r.weighted(&[1, 2, 1]) {
+                    want.push((
+                        d.ty,
+                        Some(VarId {
+                            scope: 0,
+                            idx: *gi,
+                        }),
+                    ));
+                }
+            }
+        }
+        for _ in 0..g.r.pick(3) {
+            want.push((focus[g.r.pick(focus.len())], None));
+        }
+        want.truncate(8);
+        for (ty, from) in want {
+            if let Some(input) = from {
+                copies.push((
+                    k,
+                    VarId {
+                        scope: k as u8 + 1,
+                        idx: progs[k].vars.len() as u16,
+                    },
+                    input,
+                ));
+            }
+            let name = format!("v{}", progs[k].vars.len());
+            let init = if g.r.chance(1, 5) {
+                Some(gen_lit(ty, g.r))
+            } else {
+                None
+            };
+            progs[k].vars.push(VarDecl {
+                name,
+                ty,
+                at: None,
+                init,
+                via_config: false,
+            });
+        }
+    }
+    // bodies
+    for k in 0..nprogs {
+        let scope = k as u8 + 1;
+        // (id, ty, is_input)
+        let mut visible: Vec<(VarId, Ty, bool)> = Vec::new();
+        for (i, v) in progs[k].vars.iter().enumerate() {
+            visible.push((
+                VarId {
+                    scope,
+                    idx: i as u16,
+                },
+                v.ty,
+                v.at.as_ref().map(|a| a.area) == Some(0),
+            ));
+        }
+        for gi in progs[k].ext.iter() {
+            let d = &globals[*gi as usize];
+            visible.push((
+                VarId {
+                    scope: 0,
+                    idx: *gi,
+                },
+                d.ty,
+                d.at.as_ref().map(|a| a.area) == Some(0),
+            ));
+        }
+        let writable: Vec<(VarId, Ty)> = visible.iter().filter(|v| !v.2).map(|v| (v.0, v.1)).collect();
+        let mut body: Vec<Stmt> = Vec::new();
+        let gen_src = |g: &mut Gen, ty: Ty| -> Src {
+            let same: Vec<VarId> = visible.iter().filter(|v| v.1 == ty).map(|v| v.0).collect();
+            // partial reads: a wider bit string that is visible
+            let kind = match ty {
+                Ty::Bool => Some(0u8),
+                Ty::Byte => Some(1),
+                Ty::Word => Some(2),
+                Ty::DWord => Some(3),
+                _ => None,
+            };
+            let wider: Vec<(VarId, Ty)> = match kind {
+                Some(_) => visible
+                    .iter()
+                    .filter(|v| v.1.is_bitstring() && v.1.bits() > ty.bits())
+                    .map(|v| (v.0, v.1))
+                    .collect(),
+                None => Vec::new(),
+            };
+            let weights = [
+                if same.is_empty() { 0 } else { 5 },
+                2,
+                if wider.is_empty() { 0 } else { 1 },
+            ];
+            match g.r.weighted(&weights) {
+                0 => Src::Var(same[g.r.pick(same.len())]),
+                2 => {
+                    let (var, vty) = wider[g.r.pick(wider.len())];
+                    let n = (vty.bits() / ty.bits()) as usize;
+                    Src::Part {
+                        var,
+                        kind: kind.unwrap_or(0),
+                        idx: g.r.pick(n) as u8,
+                    }
+                }
+                _ => Src::Lit(gen_lit(ty, g.r)),
+            }
+        };
+        if !writable.is_empty() {
+            let nst = g.r.pick(9);
+            for _ in 0..nst {
+                let (dst, ty) = writable[g.r.pick(writable.len())];
+                if ty.is_bitstring() && g.r.chance(1, 4) {
+                    // partial write
+                    let kinds: Vec<u8> = (0u8..4).filter(|k| part_ty(*k).bits() < ty.bits()).collect();
+                    let kind = kinds[g.r.pick(kinds.len())];
+                    let n = (ty.bits() / part_ty(kind).bits()) as usize;
+                    let idx = g.r.pick(n) as u8;
+                    let src = gen_src(&mut g, part_ty(kind));
+                    body.push(Stmt::AssignPart {
+                        dst,
+                        kind,
+                        idx,
+                        src,
+                    });
+                } else {
+                    let src = gen_src(&mut g, ty);
+                    body.push(Stmt::Assign { dst, src });
+                }
+            }
+            // tail: tie outputs/markers to fresh inputs so that an early publish shows
+            for (dst, ty) in writable.iter() {
+                let inputs: Vec<VarId> = visible.iter().filter(|v| v.2 && v.1 == *ty).map(|v| v.0).collect();
+                if !inputs.is_empty() && g.r.chance(1, 2) {
+                    let src = Src::Var(inputs[g.r.pick(inputs.len())]);
+                    body.push(Stmt::Assign { dst: *dst, src });
+                }
+            }
+        }
+        // copies of an input at several points of the body
+        for (pk, local, input) in copies.iter() {
+            if *pk == k && g.r.chance(3, 4) {
+                let pos = g.r.pick(body.len() + 1);
+                body.insert(
+                    pos,
+                    Stmt::Assign {
+                        dst: *local,
+                        src: Src::Var(*input),
+                    },
+                );
+            }
+        }
+        if fault_prog == Some(k) {
+            let conds: Vec<VarId> = visible.iter().filter(|v| v.2 && v.1 == Ty::Bool).map(|v| v.0).collect();
+            if !conds.is_empty() {
+                let cond = conds[g.r.pick(conds.len())];
+                let pos = g.r.pick(body.len() + 1);
+                body.insert(pos, Stmt::FaultIf { cond });
+            }
+        }
+        progs[k].body = body;
+    }
+    // drivers
+    let nd = 1 + g.r.weighted(&[4, 3, 2]);
+    let driver_seeds: Vec<u32> = (0..nd).map(|_| g.r.word() | 1).collect();
+    let okind = g.r.pick(4);
+    let oword = g.r.word();
+    let owner: Vec<u8> = (0..OWNER_LEN)
+        .map(|b| {
+            let o = match okind {
+                0 => b % nd,
+                1 => (b / 4) % (nd + 1),
+                2 => (mix(oword, b as u32, 7) as usize) % (nd + 1),
+                _ => {
+                    if b < 8 {
+                        0
+                    } else {
+                        nd
+                    }
+                }
+            };
+            if o >= nd {
+                255
+            } else {
+                o as u8
+            }
+        })
+        .collect();
+    let debug = g.r.chance(1, 3);
+    let safe = if g.r.chance(1, 3) {
+        let n = 1 + g.r.pick(2);
+        Some(
+            (0..n)
+                .map(|_| {
+                    let size = g.r.pick(5) as u8;
+                    let ty = [Ty::Bool, Ty::Byte, Ty::Word, Ty::DWord, Ty::LWord][size as usize];
+                    let a = g.addr(1, ty);
+                    let v = g.r.u64() & ty.mask();
+                    (size, a.byte, a.bit, v)
+                })
+                .collect(),
+        )
+    } else {
+        None
+    };
+    // cycles
+    let nc = 1 + g.r.weighted(&[1, 3, 3, 3]);
+    let mut cycles = Vec::new();
+    for _ in 0..nc {
+        let step = g.r.chance(6, 7);
+        let fail_read = if rare(g.r, 60) {
+            Some(g.r.pick(nd) as u8)
+        } else {
+            None
+        };
+        let nops = g.r.pick(4);
+        let mut ops = Vec::new();
+        for _ in 0..nops {
+            let write = g.r.chance(2, 3);
+            let area = g.r.pick(3) as Area;
+            let size = g.r.pick(5) as u8;
+            let ty = [Ty::Bool, Ty::Byte, Ty::Word, Ty::DWord, Ty::LWord][size as usize];
+            let a = g.addr(area, ty);
+            // direct operations do not count as bindings for later address choices
+            g.used.pop();
+            let value = match g.r.pick(4) {
+                0 => 0,
+                1 => u64::MAX,
+                _ => g.r.u64(),
+            } & ty.mask();
+            let mistyped = if write && g.r.chance(1, 8) {
+                Some(((size as usize + 1 + g.r.pick(4)) % 5) as u8)
+            } else {
+                None
+            };
+            ops.push(DirectOp {
+                write,
+                area,
+                size,
+                byte: a.byte,
+                bit: a.bit,
+                value,
+                mistyped,
+            });
+        }
+        cycles.push(CycleSpec {
+            step,
+            ops,
+            fail_read,
+        });
+    }
+    Case {
+        len,
+        bare,
+        globals,
+        progs,
+        tasks,
+        driver_seeds,
+        owner,
+        cycles,
+        debug,
+        safe,
+    }
+}
+
+// ---------------------------------------------------------------------------------------
+// ST rendering
+// ---------------------------------------------------------------------------------------
+
+fn inst_name(case: &Case, k: usize) -> String {
+    if case.bare {
+        format!("Prog{k}")
+    } else {
+        format!("P{k}")
+    }
+}
+
+fn at_text(a: &Addr, ty: Ty) -> String {
+    let mut s = format!("%{}{}{}", area_letter(a.area), ty.letter(), a.byte);
+    if ty == Ty::Bool {
+        s.push_str(&format!(".{}", a.bit));
+    }
+    s
+}
+
+fn decl_text(d: &VarDecl) -> String {
+    let mut s = format!("    {}", d.name);
+    if let Some(a) = &d.at {
+        if d.via_config {
+            s.push_str(&format!(" AT %{}*", area_letter(a.area)));
+        } else {
+            s.push_str(&format!(" AT {}", at_text(a, d.ty)));
+        }
+    }
+    s.push_str(&format!(" : {}", d.ty.st()));
+    if let Some(v) = d.init {
+        s.push_str(&format!(" := {}", lit_text(d.ty, v)));
+    }
+    s.push_str(";\n");
+    s
+}
+
+fn src_text(case: &Case, src: &Src, ty: Ty) -> String {
+    match src {
+        Src::Var(v) => var_decl(case, *v).name.clone(),
+        Src::Lit(b) => lit_text(ty, *b),
+        Src::Part { var, kind, idx } => {
+            format!("{}.%{}{}", var_decl(case, *var).name, part_letter(*kind), idx)
+        }
+    }
+}
+
+pub fn render(case: &Case) -> String {
+    let mut s = String::new();
+    if !case.bare {
+        s.push_str("CONFIGURATION Cfg\n");
+        if !case.globals.is_empty() {
+            s.push_str("VAR_GLOBAL\n");
+            for d in &case.globals {
+                s.push_str(&decl_text(d));
+            }
+            s.push_str("END_VAR\n");
+        }
+        for (i, p) in case.tasks.iter().enumerate() {
+            s.push_str(&format!("TASK T{i} (INTERVAL := T#10ms, PRIORITY := {p});\n"));
+        }
+        for (k, p) in case.progs.iter().enumerate() {
+            match p.task {
+                Some(t) => s.push_str(&format!("PROGRAM P{k} WITH T{t} : Prog{k};\n")),
+                None => s.push_str(&format!("PROGRAM P{k} : Prog{k};\n")),
+            }
+        }
+        let located: Vec<String> = case
+            .progs
+            .iter()
+            .enumerate()
+            .flat_map(|(k, p)| {
+                p.vars.iter().filter(|d| d.via_config).filter_map(move |d| {
+                    d.at.as_ref()
+                        .map(|a| format!("    P{k}.{} AT {} : {};\n", d.name, at_text(a, d.ty), d.ty.st()))
+                })
+            })
+            .collect();
+        if !located.is_empty() {
+            s.push_str("VAR_CONFIG\n");
+            for l in located {
+                s.push_str(&l);
+            }
+            s.push_str("END_VAR\n");
+        }
+        s.push_str("END_CONFIGURATION\n\n");
+    }
+    for (k, p) in case.progs.iter().enumerate() {
+        s.push_str(&format!("PROGRAM Prog{k}\n"));
+        if !p.ext.is_empty() {
+            s.push_str("VAR_EXTERNAL\n");
+            for gi in &p.ext {
+                let d = &case.globals[*gi as usize];
+                s.push_str(&format!("    {} : {};\n", d.name, d.ty.st()));
+            }
+            s.push_str("END_VAR\n");
+        }
+        let has_fault = p.body.iter().any(|st| matches!(st, Stmt::FaultIf { .. }));
+        if !p.vars.is_empty() || has_fault {
+            s.push_str("VAR\n");
+            for d in &p.vars {
+                s.push_str(&decl_text(d));
+            }
+            if has_fault {
+                s.push_str("    fz : DINT := DINT#0;\n    ftmp : DINT;\n");
+            }
+            s.push_str("END_VAR\n");
+        }
+        for st in &p.body {
+            match st {
+                Stmt::Assign { dst, src } => {
+                    let d = var_decl(case, *dst);
+                    s.push_str(&format!("{} := {};\n", d.name, src_text(case, src, d.ty)));
+                }
+                Stmt::AssignPart {
+                    dst,
+                    kind,
+                    idx,
+                    src,
+                } => {
+                    let d = var_decl(case, *dst);
+                    s.push_str(&format!(
+                        "{}.%{}{} := {};\n",
+                        d.name,
+                        part_letter(*kind),
+                        idx,
+                        src_text(case, src, part_ty(*kind))
+                    ));
+                }
+                Stmt::FaultIf { cond } => {
+                    s.push_str(&format!(
+                        "IF {} THEN ftmp := DINT#1 / fz; END_IF;\n",
+                        var_decl(case, *cond).name
+                    ));
+                }
+            }
+        }
+        s.push_str("END_PROGRAM\n\n");
+    }
+    s
+}
+
+// ---------------------------------------------------------------------------------------
+// byte-array model
+// ---------------------------------------------------------------------------------------
+
+#[derive(Clone, Debug, Default)]
+struct Images {
+    a: [Vec<u8>; 3],
+}
+
+fn get_byte(img: &[u8], i: usize) -> u8 {
+    img.get(i).copied().unwrap_or(0)
+}
+
+fn put_byte(img: &mut Vec<u8>, i: usize, v: u8) {
+    if img.len() <= i {
+        img.resize(i + 1, 0);
+    }
+    img[i] = v;
+}
+
+/// little-endian read of `bits` at byte/bit; bytes beyond the image are 0
+fn model_read(img: &[u8], byte: usize, bit: u8, bits: u32) -> u64 {
+    if bits == 1 {
+        return ((get_byte(img, byte) >> bit) & 1) as u64;
+    }
+    let mut v = 0u64;
+    for i in 0..(bits / 8) as usize {
+        v |= (get_byte(img, byte + i) as u64) << (8 * i);
+    }
+    v
+}
+
+fn model_write(img: &mut Vec<u8>, byte: usize, bit: u8, bits: u32, v: u64) {
+    if bits == 1 {
+        let old = get_byte(img, byte);
+        let new = if v & 1 == 1 { old | (1 << bit) } else { old & !(1 << bit) };
+        put_byte(img, byte, new);
+        return;
+    }
+    for i in 0..(bits / 8) as usize {
+        put_byte(img, byte + i, (v >> (8 * i)) as u8);
+    }
+}
+
+/// equality modulo trailing zero bytes
+fn same_image(a: &[u8], b: &[u8]) -> bool {
+    let n = a.len().max(b.len());
+    (0..n).all(|i| get_byte(a, i) == get_byte(b, i))
+}
+
+fn first_diff(a: &[u8], b: &[u8]) -> usize {
+    let n = a.len().max(b.len());
+    (0..n).find(|i| get_byte(a, *i) != get_byte(b, *i)).unwrap_or(n)
+}
+
+fn hex(a: &[u8]) -> String {
+    a.iter().map(|b| format!("{b:02x}")).collect::<Vec<_>>().join(" ")
+}
+
+fn addr_text(area: Area, size: u8, byte: u16, bit: u8) -> String {
+    if size == 0 {
+        format!("%{}X{}.{}", area_letter(area), byte, bit)
+    } else {
+        format!("%{}{}{}", area_letter(area), size_letter(size), byte)
+    }
+}
+
+// ---------------------------------------------------------------------------------------
+// instrumented driver
+// ---------------------------------------------------------------------------------------
+
+#[derive(Clone, Debug)]
+enum Ev {
+    Read {
+        d: usize,
+        after: Vec<u8>,
+        failed: bool,
+    },
+    Write {
+        d: usize,
+        image: Vec<u8>,
+    },
+    /// runtime event drained from the debug control at this point of the log
+    Rt(&'static str),
+}
+
+struct Drv {
+    idx: usize,
+    seed: u32,
+    owner: Arc<Vec<u8>>,
+    calls: u32,
+    log: Arc<Mutex<Vec<Ev>>>,
+    fail_read: Arc<AtomicBool>,
+    debug: Option<DebugControl>,
+}
+
+fn drain_events(debug: &Option<DebugControl>, log: &mut Vec<Ev>) {
+    if let Some(ctl) = debug {
+        for ev in ctl.drain_runtime_events() {
+            log.push(Ev::Rt(match ev {
+                RuntimeEvent::CycleStart { .. } => "CycleStart",
+                RuntimeEvent::CycleEnd { .. } => "CycleEnd",
+                RuntimeEvent::TaskStart { .. } => "TaskStart",
+                RuntimeEvent::TaskEnd { .. } => "TaskEnd",
+                RuntimeEvent::TaskOverrun { .. } => "TaskOverrun",
+                _ => "Other",
+            }));
+        }
+    }
+}
+
+impl IoDriver for Drv {
+    fn read_inputs(&mut self, inputs: &mut [u8]) -> Result<(), RuntimeError> {
+        let mut log = self.log.lock().unwrap_or_else(|p| p.into_inner());
+        drain_events(&self.debug, &mut log);
+        self.calls += 1;
+        if self.fail_read.load(Ordering::SeqCst) {
+            log.push(Ev::Read {
+                d: self.idx,
+                after: inputs.to_vec(),
+                failed: true,
+            });
+            return Err(RuntimeError::IoDriver("c07 injected read failure".into()));
+        }
+        for (b, byte) in inputs.iter_mut().enumerate() {
+            if self.owner.get(b).copied() == Some(self.idx as u8) {
+                *byte = stream_byte(self.seed, self.calls, b, *byte);
+            }
+        }
+        log.push(Ev::Read {
+            d: self.idx,
+            after: inputs.to_vec(),
+            failed: false,
+        });
+        Ok(())
+    }
+
+    fn write_outputs(&mut self, outputs: &[u8]) -> Result<(), RuntimeError> {
+        let mut log = self.log.lock().unwrap_or_else(|p| p.into_inner());
+        drain_events(&self.debug, &mut log);
+        log.push(Ev::Write {
+            d: self.idx,
+            image: outputs.to_vec(),
+        });
+        Ok(())
+    }
+}
+
+// ---------------------------------------------------------------------------------------
+// running a case
+// ---------------------------------------------------------------------------------------
+
+struct Binding {
+    id: VarId,
+    area: Area,
+    byte: usize,
+    bit: u8,
+    ty: Ty,
+}
+
+fn bindings_of(case: &Case) -> Vec<Binding> {
+    let mut out = Vec::new();
+    let mut push = |scope: u8, idx: usize, d: &VarDecl| {
+        if let Some(a) = &d.at {
+            out.push(Binding {
+                id: VarId {
+                    scope,
+                    idx: idx as u16,
+                },
+                area: a.area,
+                byte: a.byte as usize,
+                bit: a.bit,
+                ty: d.ty,
+            });
+        }
+    };
+    for (i, d) in case.globals.iter().enumerate() {
+        push(0, i, d);
+    }
+    for (k, p) in case.progs.iter().enumerate() {
+        for (i, d) in p.vars.iter().enumerate() {
+            push(k as u8 + 1, i, d);
+        }
+    }
+    out
+}
+
+struct Vals {
+    v: Vec<Vec<u64>>,
+}
+
+impl Vals {
+    fn get(&self, id: VarId) -> u64 {
+        self.v[id.scope as usize][id.idx as usize]
+    }
+    fn set(&mut self, id: VarId, x: u64) {
+        self.v[id.scope as usize][id.idx as usize] = x;
+    }
+}
+
+fn eval_src(case: &Case, vals: &Vals, src: &Src) -> u64 {
+    match src {
+        Src::Var(v) => vals.get(*v),
+        Src::Lit(b) => *b,
+        Src::Part { var, kind, idx } => {
+            let _ = case;
+            let w = part_ty(*kind).bits();
+            (vals.get(*var) >> (w * *idx as u32)) & part_ty(*kind).mask()
+        }
+    }
+}
+
+/// Interpret one program body; true = it faults.
+fn run_prog(case: &Case, vals: &mut Vals, k: usize) -> bool {
+    for st in &case.progs[k].body {
+        match st {
+            Stmt::Assign { dst, src } => {
+                let x = eval_src(case, vals, src);
+                vals.set(*dst, x & var_decl(case, *dst).ty.mask());
+            }
+            Stmt::AssignPart {
+                dst,
+                kind,
+                idx,
+                src,
+            } => {
+                let x = eval_src(case, vals, src);
+                let w = part_ty(*kind).bits();
+                let shift = w * *idx as u32;
+                let m = part_ty(*kind).mask() << shift;
+                let old = vals.get(*dst);
+                vals.set(*dst, (old & !m) | ((x << shift) & m));
+            }
+            Stmt::FaultIf { cond } => {
+                if vals.get(*cond) & 1 == 1 {
+                    return true;
+                }
+            }
+        }
+    }
+    false
+}
+
+fn actual_var(rt: &Runtime, case: &Case, id: VarId) -> Option<Value> {
+    let d = var_decl(case, id);
+    if id.scope == 0 {
+        return rt.storage().get_global(&d.name).cloned();
+    }
+    let inst = inst_name(case, id.scope as usize - 1);
+    match rt.storage().get_global(&inst) {
+        Some(Value::Instance(iid)) => rt.storage().get_instance_var(*iid, &d.name).cloned(),
+        _ => None,
+    }
+}
+
+/// Which bytes may the end-of-cycle copy of the bound variables leave in `area`?
+/// Checks `actual` against `prev` overlaid with the encodings of all bindings of the area,
+/// accepting any order among bindings that cover the same byte.
+fn check_commit(
+    what: &str,
+    prev: &[u8],
+    actual: &[u8],
+    binds: &[&Binding],
+    vals: &Vals,
+) -> Result<bool, String> {
+    let mut n = prev.len().max(actual.len());
+    for b in binds {
+        n = n.max(b.byte + b.ty.span());
+    }
+    // also compute the in-declaration-order overlay (reported as a label only)
+    let mut in_order = prev.to_vec();
+    for b in binds {
+        model_write(&mut in_order, b.byte, b.bit, b.ty.bits(), vals.get(b.id));
+    }
+    for i in 0..n {
+        let got = get_byte(actual, i);
+        let whole: Vec<u8> = binds
+            .iter()
+            .filter(|b| b.ty != Ty::Bool && b.byte <= i && i < b.byte + b.ty.span())
+            .map(|b| (vals.get(b.id) >> (8 * (i - b.byte))) as u8)
+            .collect();
+        let bits: Vec<(u8, u8)> = binds
+            .iter()
+            .filter(|b| b.ty == Ty::Bool && b.byte == i)
+            .map(|b| (b.bit, (vals.get(b.id) & 1) as u8))
+            .collect();
+        let bases: Vec<(u8, bool)> = if whole.is_empty() {
+            vec![(get_byte(prev, i), false)]
+        } else {
+            whole.iter().map(|w| (*w, true)).collect()
+        };
+        let ok = bases.iter().any(|(base, from_binding)| {
+            (0..8u8).all(|p| {
+                let g = (got >> p) & 1;
+                let cands: Vec<u8> = bits.iter().filter(|(bp, _)| *bp == p).map(|(_, v)| *v).collect();
+                if cands.is_empty() {
+                    g == (base >> p) & 1
+                } else if *from_binding {
+                    cands.contains(&g) || g == (base >> p) & 1
+                } else {
+                    cands.contains(&g)
+                }
+            })
+        });
+        if !ok {
+            let covering: Vec<String> = binds
+                .iter()
+                .filter(|b| b.byte <= i && i < b.byte + b.ty.span())
+                .map(|b| {
+                    format!(
+                        "{:?}@{}{} = {:#x}",
+                        b.ty,
+                        b.byte,
+                        if b.ty == Ty::Bool { format!(".{}", b.bit) } else { String::new() },
+                        vals.get(b.id)
+                    )
+                })
+                .collect();
+            return Err(format!(
+                "{what}: byte {i} is {got:#04x}; previous image byte {:#04x}; covering bindings [{}]\n  previous {}\n  actual   {}",
+                get_byte(prev, i),
+                covering.join(", "),
+                hex(prev),
+                hex(actual)
+            ));
+        }
+    }
+    Ok(same_image(&in_order, actual))
+}
+
+fn spans_overlap(a: &Binding, b: &Binding) -> bool {
+    if a.area != b.area {
+        return false;
+    }
+    if a.ty == Ty::Bool && b.ty == Ty::Bool {
+        return a.byte == b.byte && a.bit == b.bit;
+    }
+    a.byte < b.byte + b.ty.span() && b.byte < a.byte + a.ty.span()
+}
+
+fn spans_touch(a: &Binding, b: &Binding) -> bool {
+    if a.area != b.area {
+        return false;
+    }
+    if a.ty == Ty::Bool && b.ty == Ty::Bool {
+        return a.byte == b.byte && a.bit != b.bit;
+    }
+    a.byte + a.ty.span() == b.byte || b.byte + b.ty.span() == a.byte
+}
+
+/// input bindings a program body reads
+fn inputs_read(case: &Case, k: usize, binds: &[Binding]) -> Vec<usize> {
+    let mut out = Vec::new();
+    let mut note = |id: VarId| {
+        if let Some(i) = binds.iter().position(|b| b.id == id && b.area == 0) {
+            if !out.contains(&i) {
+                out.push(i);
+            }
+        }
+    };
+    for st in &case.progs[k].body {
+        match st {
+            Stmt::Assign { src, .. } | Stmt::AssignPart { src, .. } => match src {
+                Src::Var(v) => note(*v),
+                Src::Part { var, .. } => note(*var),
+                Src::Lit(_) => {}
+            },
+            Stmt::FaultIf { cond } => note(*cond),
+        }
+    }
+    out
+}
+
+thread_local! {
+    static INFRA: RefCell<Vec<String>> = const { RefCell::new(Vec::new()) };
+}
+
+fn infra(msg: String) {
+    INFRA.with(|i| {
+        let mut i = i.borrow_mut();
+        if i.len() < 5 {
+            i.push(msg);
+        }
+    });
+}
+
+fn run_case(case: &Case, probe: &mut Probe) -> Result<(), String> {
+    let src = render(case);
+    let fail = |msg: String| -> String { format!("{msg}\n--- source ---\n{src}") };
+    let mut h = match TestHarness::from_source(&src) {
+        Ok(h) => h,
+        Err(e) => {
+            // a generator problem, never a property violation
+            infra(format!("generated program does not compile: {e}\n{src}"));
+            probe.label("infra=compile_error");
+            return Ok(());
+        }
+    };
+    let binds = bindings_of(case);
+    let nd = case.driver_seeds.len();
+    let log: Arc<Mutex<Vec<Ev>>> = Arc::new(Mutex::new(Vec::new()));
+    let owner = Arc::new(case.owner.clone());
+    let fail_flags: Vec<Arc<AtomicBool>> = (0..nd).map(|_| Arc::new(AtomicBool::new(false))).collect();
+    let rt = h.runtime_mut();
+    rt.io_mut()
+        .resize(case.len[0] as usize, case.len[1] as usize, case.len[2] as usize);
+    let debug = if case.debug { Some(rt.enable_debug()) } else { None };
+    for d in 0..nd {
+        rt.add_io_driver(
+            format!("c07-{d}"),
+            Box::new(Drv {
+                idx: d,
+                seed: case.driver_seeds[d],
+                owner: owner.clone(),
+                calls: 0,
+                log: log.clone(),
+                fail_read: fail_flags[d].clone(),
+                debug: debug.clone(),
+            }),
+        );
+    }
+    if let Some(safe) = &case.safe {
+        rt.set_fault_policy(FaultPolicy::SafeHalt);
+        let mut outputs = Vec::new();
+        for (size, byte, bit, v) in safe {
+            let text = addr_text(1, *size, *byte, *bit);
+            let addr = IoAddress::parse(&text).map_err(|e| fail(format!("IoAddress::parse({text}) failed: {e}")))?;
+            outputs.push((addr, raw_value(*size, *v)));
+        }
+        rt.set_io_safe_state(IoSafeState { outputs });
+    }
+
+    // the number of bindings the runtime registered must be what was declared
+    if rt.io().bindings().len() != binds.len() {
+        infra(format!(
+            "binding count mismatch: declared {}, runtime has {}\n{src}",
+            binds.len(),
+            rt.io().bindings().len()
+        ));
+        probe.label("infra=binding_count");
+        return Ok(());
+    }
+
+    // model
+    let mut img = Images::default();
+    for a in 0..3 {
+        img.a[a] = vec![0u8; case.len[a] as usize];
+    }
+    let mut vals = Vals {
+        v: std::iter::once(case.globals.iter().map(|d| d.init.unwrap_or(0)).collect())
+            .chain(case.progs.iter().map(|p| p.vars.iter().map(|d| d.init.unwrap_or(0)).collect()))
+            .collect(),
+    };
+    let mut calls = vec![0u32; nd];
+
+    // classification
+    let mut overlap = false;
+    let mut touch = false;
+    for i in 0..binds.len() {
+        for j in i + 1..binds.len() {
+            overlap |= spans_overlap(&binds[i], &binds[j]);
+            touch |= spans_touch(&binds[i], &binds[j]);
+        }
+    }
+    let mut shared_tasks = false;
+    {
+        let reads: Vec<(Option<u8>, Vec<usize>)> = (0..case.progs.len())
+            .map(|k| (case.progs[k].task, inputs_read(case, k, &binds)))
+            .collect();
+        for i in 0..reads.len() {
+            for j in i + 1..reads.len() {
+                if let (Some(a), Some(b)) = (reads[i].0, reads[j].0) {
+                    if a != b {
+                        for x in &reads[i].1 {
+                            for y in &reads[j].1 {
+                                if x == y || spans_overlap(&binds[*x], &binds[*y]) {
+                                    shared_tasks = true;
+                                }
+                            }
+                        }
+                    }
+                }
+            }
+        }
+    }
+    let mut cross_len = false;
+    let mut faulted_cycle = false;
+    let mut order_other = false;
+    let mut task_events = false;
+    let mut cycles_run = 0usize;
+    let has_bg = case.progs.iter().any(|p| p.task.is_none());
+    let uses_partial = case.progs.iter().any(|p| {
+        p.body.iter().any(|s| {
+            matches!(s, Stmt::AssignPart { .. })
+                || matches!(s, Stmt::Assign { src: Src::Part { .. }, .. })
+        })
+    });
+
+    'cycles: for (ci, cy) in case.cycles.iter().enumerate() {
+        let rt = h.runtime_mut();
+        // ---- direct operations between cycles ----
+        for op in &cy.ops {
+            let text = addr_text(op.area, op.size, op.byte, op.bit);
+            let addr = IoAddress::parse(&text).map_err(|e| fail(format!("IoAddress::parse({text}) failed: {e}")))?;
+            let a = op.area as usize;
+            let bits = size_bits(op.size);
+            let span = (bits as usize).div_ceil(8);
+            let l = img.a[a].len();
+            if span > 1 && (op.byte as usize) < l && l < op.byte as usize + span {
+                cross_len = true;
+            }
+            if op.write {
+                match op.mistyped {
+                    None => {
+                        rt.io_mut()
+                            .write(&addr, raw_value(op.size, op.value))
+                            .map_err(|e| fail(format!("cycle {ci}: IoInterface::write({text}) failed: {e}")))?;
+                        model_write(&mut img.a[a], op.byte as usize, op.bit, bits, op.value);
+                    }
+                    Some(other) => {
+                        // outcome unasserted; only "nothing outside the span changes"
+                        let _ = rt.io_mut().write(&addr, raw_value(other, op.value));
+                        let act = match a {
+                            0 => rt.io().inputs(),
+                            1 => rt.io().outputs(),
+                            _ => rt.io().memory(),
+                        };
+                        for i in 0..span {
+                            let v = get_byte(act, op.byte as usize + i);
+                            if v != get_byte(&img.a[a], op.byte as usize + i) {
+                                put_byte(&mut img.a[a], op.byte as usize + i, v);
+                            }
+                        }
+                    }
+                }
+            } else {
+                match rt.io().read(&addr) {
+                    Ok(v) => {
+                        let want = raw_value(op.size, model_read(&img.a[a], op.byte as usize, op.bit, bits));
+                        if v != want {
+                            return Err(fail(format!(
+                                "cycle {ci}: IoInterface::read({text}) = {v:?}, byte-array model says {want:?}\n  image {}",
+                                hex(&img.a[a])
+                            )));
+                        }
+                    }
+                    Err(e) => {
+                        if op.byte as usize + span <= l {
+                            return Err(fail(format!("cycle {ci}: IoInterface::read({text}) inside the image failed: {e}")));
+                        }
+                        probe.label("unasserted=read_beyond_image_err");
+                    }
+                }
+            }
+            let acts = [rt.io().inputs(), rt.io().outputs(), rt.io().memory()];
+            for k in 0..3 {
+                if !same_image(acts[k], &img.a[k]) {
+                    let i = first_diff(acts[k], &img.a[k]);
+                    return Err(fail(format!(
+                        "cycle {ci}: after direct {} {text} (value {:#x}) the %{} image differs from the byte-array model at byte {i}\n  model  {}\n  actual {}",
+                        if op.write { "write" } else { "read" },
+                        op.value,
+                        area_letter(k as u8),
+                        hex(&img.a[k]),
+                        hex(acts[k])
+                    )));
+                }
+            }
+        }
+        // adopt the actual lengths (lengths are not asserted)
+        {
+            let acts = [rt.io().inputs().len(), rt.io().outputs().len(), rt.io().memory().len()];
+            for k in 0..3 {
+                img.a[k].resize(acts[k], 0);
+            }
+        }
+        for b in &binds {
+            let l = img.a[b.area as usize].len();
+            if b.ty.span() > 1 && b.byte < l && l < b.byte + b.ty.span() {
+                cross_len = true;
+            }
+        }
+
+        // ---- the cycle ----
+        for (d, f) in fail_flags.iter().enumerate() {
+            f.store(cy.fail_read == Some(d as u8), Ordering::SeqCst);
+        }
+        if cy.step {
+            rt.advance_time(Duration::from_millis(10));
+        }
+        {
+            let mut l = log.lock().unwrap_or_else(|p| p.into_inner());
+            l.clear();
+        }
+        let prev_q = img.a[1].clone();
+        let prev_m = img.a[2].clone();
+        let result = rt.execute_cycle();
+        {
+            let mut l = log.lock().unwrap_or_else(|p| p.into_inner());
+            drain_events(&debug, &mut l);
+        }
+        let events: Vec<Ev> = log.lock().unwrap_or_else(|p| p.into_inner()).clone();
+        cycles_run += 1;
+
+        // ---- model of the cycle ----
+        // drivers: the runtime's order is not asserted, ownership is disjoint
+        let mut read_fault = false;
+        let mut latched = img.a[0].clone();
+        if cy.fail_read.is_some() {
+            read_fault = true;
+        } else {
+            for d in 0..nd {
+                calls[d] += 1;
+                for (b, byte) in latched.iter_mut().enumerate() {
+                    if case.owner.get(b).copied() == Some(d as u8) {
+                        *byte = stream_byte(case.driver_seeds[d], calls[d], b, *byte);
+                    }
+                }
+            }
+        }
+        let mut prog_fault = false;
+        let mut expect_vals = Vals { v: vals.v.clone() };
+        if !read_fault {
+            for b in &binds {
+                if b.area == 0 {
+                    expect_vals.set(b.id, model_read(&latched, b.byte, b.bit, b.ty.bits()));
+                } else if b.area == 2 {
+                    expect_vals.set(b.id, model_read(&img.a[2], b.byte, b.bit, b.ty.bits()));
+                }
+            }
+            for k in 0..case.progs.len() {
+                let runs = case.progs[k].task.is_none() || cy.step;
+                if runs && run_prog(case, &mut expect_vals, k) {
+                    prog_fault = true;
+                }
+            }
+        }
+
+        let reads: Vec<(usize, usize, bool)> = events
+            .iter()
+            .enumerate()
+            .filter_map(|(i, e)| match e {
+                Ev::Read { d, failed, .. } => Some((i, *d, *failed)),
+                _ => None,
+            })
+            .collect();
+        let writes: Vec<(usize, usize)> = events
+            .iter()
+            .enumerate()
+            .filter_map(|(i, e)| match e {
+                Ev::Write { d, .. } => Some((i, *d)),
+                _ => None,
+            })
+            .collect();
+        let order_text = || -> String {
+            events
+                .iter()
+                .map(|e| match e {
+                    Ev::Read { d, failed, .. } => format!("read[{d}]{}", if *failed { "!" } else { "" }),
+                    Ev::Write { d, .. } => format!("write[{d}]"),
+                    Ev::Rt(s) => (*s).to_string(),
+                })
+                .collect::<Vec<_>>()
+                .join(" ")
+        };
+
+        if read_fault || prog_fault {
+            // ---- faulted cycle ----
+            faulted_cycle = true;
+            if result.is_ok() {
+                return Err(fail(format!(
+                    "cycle {ci}: expected a fault ({}), execute_cycle returned Ok",
+                    if read_fault { "driver read failure" } else { "division by zero behind a TRUE input" }
+                )));
+            }
+            for d in 0..nd {
+                let n = reads.iter().filter(|r| r.1 == d).count();
+                if n > 1 || (prog_fault && n != 1) {
+                    return Err(fail(format!(
+                        "cycle {ci} (faulted): driver {d} was asked for inputs {n} times; call order: {}",
+                        order_text()
+                    )));
+                }
+            }
+            // whatever reaches a driver in this cycle carries no program-computed value:
+            // the previous output image, overlaid with the configured safe state if any
+            let allowed = prev_q.clone();
+            let mut allowed_safe = prev_q.clone();
+            if let Some(safe) = &case.safe {
+                for (size, byte, bit, v) in safe {
+                    model_write(&mut allowed_safe, *byte as usize, *bit, size_bits(*size), *v);
+                }
+            }
+            for e in &events {
+                if let Ev::Write { d, image } = e {
+                    if !same_image(image, &allowed) && !same_image(image, &allowed_safe) {
+                        let i = first_diff(image, &allowed);
+                        return Err(fail(format!(
+                            "cycle {ci} faulted ({:?}) but driver {d} was given outputs that differ from the previous image{} at byte {i}\n  previous(+safe) {}\n  published       {}\n  call order: {}",
+                            result.as_ref().err(),
+                            if case.safe.is_some() { " + safe state" } else { "" },
+                            hex(&allowed),
+                            hex(image),
+                            order_text()
+                        )));
+                    }
+                }
+            }
+            probe.label(if read_fault { "fault=driver_read" } else { "fault=program" });
+            if case.safe.is_some() {
+                probe.label("fault=with_safe_state");
+            }
+            break 'cycles;
+        }
+
+        // ---- normal cycle ----
+        if let Err(e) = &result {
+            let oob = binds
+                .iter()
+                .any(|b| b.area != 1 && b.byte + b.ty.span() > img.a[b.area as usize].len());
+            if oob && !matches!(e, RuntimeError::DivisionByZero) {
+                probe.label("unasserted=fault_with_binding_beyond_image");
+                break 'cycles;
+            }
+            return Err(fail(format!("cycle {ci}: unexpected fault {e:?}; call order: {}", order_text())));
+        }
+        for d in 0..nd {
+            let nr = reads.iter().filter(|r| r.1 == d).count();
+            let nw = writes.iter().filter(|w| w.1 == d).count();
+            if nr != 1 || nw != 1 {
+                return Err(fail(format!(
+                    "cycle {ci}: driver {d} got {nr} read_inputs and {nw} write_outputs calls (exactly one each is required); call order: {}",
+                    order_text()
+                )));
+            }
+        }
+        let last_read = reads.iter().map(|r| r.0).max().unwrap_or(0);
+        let first_write = writes.iter().map(|w| w.0).min().unwrap_or(usize::MAX);
+        if last_read > first_write {
+            return Err(fail(format!(
+                "cycle {ci}: a driver was given outputs before every driver was read; call order: {}",
+                order_text()
+            )));
+        }
+        for (i, e) in events.iter().enumerate() {
+            if let Ev::Rt(kind) = e {
+                let is_task = *kind == "TaskStart" || *kind == "TaskEnd";
+                if is_task && (i < last_read || i > first_write) {
+                    return Err(fail(format!(
+                        "cycle {ci}: task execution is not enclosed by the driver calls; order: {}",
+                        order_text()
+                    )));
+                }
+            }
+        }
+        if debug.is_some() && events.iter().any(|e| matches!(e, Ev::Rt("TaskStart"))) {
+            task_events = true;
+        }
+        // the latched image: what the last driver left behind
+        if let Some(Ev::Read { after, .. }) = events.get(last_read) {
+            if !same_image(after, &latched) {
+                let i = first_diff(after, &latched);
+                return Err(fail(format!(
+                    "cycle {ci}: input image after the driver reads differs from the model at byte {i}\n  model  {}\n  actual {}",
+                    hex(&latched),
+                    hex(after)
+                )));
+            }
+        }
+        let rt = h.runtime();
+        if !same_image(rt.io().inputs(), &latched) {
+            let i = first_diff(rt.io().inputs(), &latched);
+            return Err(fail(format!(
+                "cycle {ci}: the input image changed after it was latched (byte {i})\n  latched {}\n  now     {}",
+                hex(&latched),
+                hex(rt.io().inputs())
+            )));
+        }
+        // every variable: bound inputs = decode(latched), copies = latched value, finals
+        for scope in 0..expect_vals.v.len() {
+            for idx in 0..expect_vals.v[scope].len() {
+                let id = VarId {
+                    scope: scope as u8,
+                    idx: idx as u16,
+                };
+                let d = var_decl(case, id);
+                let want = expect_vals.get(id);
+                let got = actual_var(rt, case, id);
+                let got_bits = got.as_ref().and_then(value_bits);
+                if got_bits != Some((d.ty, want)) {
+                    let role = match d.at.as_ref().map(|a| a.area) {
+                        Some(0) => "input-bound",
+                        Some(1) => "output-bound",
+                        Some(2) => "marker-bound",
+                        _ => "local",
+                    };
+                    return Err(fail(format!(
+                        "cycle {ci}: {role} variable {} ({}{}) holds {got:?}, the model says {} (bits {want:#x})\n  latched inputs {}\n  memory at start {}",
+                        d.name,
+                        d.ty.st(),
+                        d.at.as_ref().map(|a| format!(" AT %{}{}{}.{}", area_letter(a.area), d.ty.letter(), a.byte, a.bit)).unwrap_or_default(),
+                        lit_text(d.ty, want),
+                        hex(&latched),
+                        hex(&prev_m)
+                    )));
+                }
+            }
+        }
+        // published bytes
+        let final_q = rt.io().outputs().to_vec();
+        for e in &events {
+            if let Ev::Write { d, image } = e {
+                if !same_image(image, &final_q) {
+                    let i = first_diff(image, &final_q);
+                    return Err(fail(format!(
+                        "cycle {ci}: driver {d} was given an output image that differs from the final one at byte {i}\n  given {}\n  final {}",
+                        hex(image),
+                        hex(&final_q)
+                    )));
+                }
+            }
+        }
+        let qb: Vec<&Binding> = binds.iter().filter(|b| b.area == 1).collect();
+        let mb: Vec<&Binding> = binds.iter().filter(|b| b.area == 2).collect();
+        let in_order_q = check_commit(&format!("cycle {ci}: published %Q image"), &prev_q, &final_q, &qb, &expect_vals)
+            .map_err(&fail)?;
+        let final_m = rt.io().memory().to_vec();
+        let in_order_m = check_commit(&format!("cycle {ci}: %M image after the cycle"), &prev_m, &final_m, &mb, &expect_vals)
+            .map_err(&fail)?;
+        if !(in_order_q && in_order_m) {
+            order_other = true;
+        }
+        // carry on from the actual images
+        img.a[0] = latched;
+        img.a[1] = final_q;
+        img.a[2] = final_m;
+        vals = expect_vals;
+    }
+
+    // ---- evidence ----
+    probe.label(format!("drivers={nd}"));
+    probe.label(format!("cycles_run={cycles_run}"));
+    probe.label(format!("tasks={}", case.tasks.len()));
+    probe.label(format!("bindings={}", match binds.len() {
+        0..=2 => "1-2",
+        3..=5 => "3-5",
+        6..=9 => "6-9",
+        _ => "10+",
+    }));
+    for t in ALL_TYPES {
+        if binds.iter().any(|b| b.ty == t) {
+            probe.label(format!("type={}", t.st()));
+        }
+    }
+    for (a, name) in ["I", "Q", "M"].iter().enumerate() {
+        if binds.iter().any(|b| b.area == a as u8) {
+            probe.label(format!("area={name}"));
+        }
+    }
+    if overlap {
+        probe.label("class=overlapping_bindings");
+    }
+    if touch {
+        probe.label("class=touching_bindings");
+    }
+    if shared_tasks {
+        probe.label("class=two_tasks_read_same_input");
+    }
+    if cross_len {
+        probe.label("class=span_crosses_image_length");
+    }
+    if has_bg {
+        probe.label("has_background_program");
+    }
+    if uses_partial {
+        probe.label("has_partial_access");
+    }
+    if case.debug {
+        probe.label("debug_attached");
+    }
+    if case.bare {
+        probe.label("no_configuration");
+    }
+    if case.progs.iter().any(|p| p.vars.iter().any(|d| d.via_config)) {
+        probe.label("has_var_config_located_binding");
+    }
+    if task_events {
+        probe.label("order=task_events_observed");
+    }
+    if order_other {
+        probe.label("overlap_resolved_not_in_declaration_order");
+    }
+    if !faulted_cycle {
+        probe.label("fault=none");
+    }
+    if case.cycles.iter().any(|c| !c.step) {
+        probe.label("has_cycle_without_due_task");
+    }
+    if case.cycles.iter().any(|c| !c.ops.is_empty()) {
+        probe.label("has_direct_ops");
+    }
+    if overlap || touch || shared_tasks || cross_len {
+        let key = serde_json::to_vec(case).unwrap_or_default();
+        probe.nontrivial(&key);
+        probe.sample(json!({
+            "search": "cycle",
+            "bindings": binds.iter().map(|b| format!("{}:{}", addr_text(b.area, match b.ty.bits() {1=>0,8=>1,16=>2,32=>3,_=>4}, b.byte as u16, b.bit), b.ty.st())).collect::<Vec<_>>(),
+            "programs": case.progs.len(),
+            "tasks": case.tasks.len(),
+            "drivers": nd,
+            "cycles": cycles_run,
+            "classes": {"overlap": overlap, "touch": touch, "two_tasks_same_input": shared_tasks, "cross_len": cross_len},
+        }));
+    }
+    Ok(())
+}
+
+// ---------------------------------------------------------------------------------------
+// search "direct": a bare IoInterface against the byte-array model
+// ---------------------------------------------------------------------------------------
+
+#[derive(Clone, Debug, PartialEq, Serialize, Deserialize)]
+pub enum DOp {
+    Resize(u8, u8, u8),
+    Write { area: u8, size: u8, byte: u8, bit: u8, value: u64 },
+    Mistyped { area: u8, size: u8, other: u8, byte: u8, bit: u8, value: u64 },
+    Read { area: u8, size: u8, byte: u8, bit: u8 },
+}
+
+fn dop_strategy() -> impl Strategy<Value = DOp> {
+    let value = prop_oneof![
+        2 => any::<u64>(),
+        1 => Just(0u64),
+        1 => Just(u64::MAX),
+        1 => Just(0x0102_0304_0506_0708u64),
+    ];
+    let byte = prop_oneof![3 => 0u8..=72, 1 => 0u8..4];
+    prop_oneof![
+        1 => (0u8..=72, 0u8..=72, 0u8..=72).prop_map(|(a, b, c)| DOp::Resize(a, b, c)),
+        6 => (0u8..3, 0u8..5, byte.clone(), 0u8..8, value.clone())
+            .prop_map(|(area, size, byte, bit, value)| DOp::Write { area, size, byte, bit, value }),
+        1 => (0u8..3, 0u8..5, 1u8..5, byte.clone(), 0u8..8, value)
+            .prop_map(|(area, size, o, byte, bit, value)| DOp::Mistyped { area, size, other: (size + o) % 5, byte, bit, value }),
+        5 => (0u8..3, 0u8..5, byte, 0u8..8).prop_map(|(area, size, byte, bit)| DOp::Read { area, size, byte, bit }),
+    ]
+}
+
+fn run_direct(ops: &Vec<DOp>, probe: &mut Probe) -> Result<(), String> {
+    let mut io = IoInterface::new();
+    let mut img = Images::default();
+    let mut interesting = false;
+    let mut mistyped = false;
+    for (n, op) in ops.iter().enumerate() {
+        let describe;
+        match op {
+            DOp::Resize(a, b, c) => {
+                io.resize(*a as usize, *b as usize, *c as usize);
+                img.a[0].resize(*a as usize, 0);
+                img.a[1].resize(*b as usize, 0);
+                img.a[2].resize(*c as usize, 0);
+                describe = format!("resize({a},{b},{c})");
+            }
+            DOp::Write { area, size, byte, bit, value } => {
+                let text = addr_text(*area, *size, *byte as u16, *bit);
+                let addr = IoAddress::parse(&text).map_err(|e| format!("IoAddress::parse({text}): {e}"))?;
+                let bits = size_bits(*size);
+                let v = value & [1, 0xff, 0xffff, 0xffff_ffff, u64::MAX][*size as usize];
+                let a = *area as usize;
+                let l = img.a[a].len();
+                let span = (bits as usize).div_ceil(8);
+                if (*size != 1) && (img.a[a].iter().any(|b| *b != 0) || ((*byte as usize) < l && l < *byte as usize + span)) {
+                    interesting = true;
+                }
+                io.write(&addr, raw_value(*size, v)).map_err(|e| format!("op {n}: write({text}) failed: {e}"))?;
+                model_write(&mut img.a[a], *byte as usize, *bit, bits, v);
+                describe = format!("write({text}, {v:#x})");
+            }
+            DOp::Mistyped { area, size, other, byte, bit, value } => {
+                let text = addr_text(*area, *size, *byte as u16, *bit);
+                let addr = IoAddress::parse(&text).map_err(|e| format!("IoAddress::parse({text}): {e}"))?;
+                let _ = io.write(&addr, raw_value(*other, *value));
+                let a = *area as usize;
+                let act = match a {
+                    0 => io.inputs(),
+                    1 => io.outputs(),
+                    _ => io.memory(),
+                };
+                let span = (size_bits(*size) as usize).div_ceil(8);
+                for i in 0..span {
+                    let v = get_byte(act, *byte as usize + i);
+                    if v != get_byte(&img.a[a], *byte as usize + i) {
+                        put_byte(&mut img.a[a], *byte as usize + i, v);
+                    }
+                }
+                describe = format!("write({text}, <value of size {}>)", size_letter(*other));
+                mistyped = true;
+            }
+            DOp::Read { area, size, byte, bit } => {
+                let text = addr_text(*area, *size, *byte as u16, *bit);
+                let addr = IoAddress::parse(&text).map_err(|e| format!("IoAddress::parse({text}): {e}"))?;
+                let a = *area as usize;
+                let bits = size_bits(*size);
+                let span = (bits as usize).div_ceil(8);
+                let l = img.a[a].len();
+                if (*size != 1) && (img.a[a].iter().any(|b| *b != 0) || ((*byte as usize) < l && l < *byte as usize + span)) {
+                    interesting = true;
+                }
+                match io.read(&addr) {
+                    Ok(v) => {
+                        let want = raw_value(*size, model_read(&img.a[a], *byte as usize, *bit, bits));
+                        if v != want {
+                            return Err(format!(
+                                "op {n}: read({text}) = {v:?}, byte-array model says {want:?}\n  image {}",
+                                hex(&img.a[a])
+                            ));
+                        }
+                    }
+                    Err(e) => {
+                        if *byte as usize + span <= l {
+                            return Err(format!("op {n}: read({text}) inside the image failed: {e}"));
+                        }
+                        probe.label("unasserted=read_beyond_image_err");
+                    }
+                }
+                describe = format!("read({text})");
+            }
+        }
+        let acts = [io.inputs(), io.outputs(), io.memory()];
+        for k in 0..3 {
+            if !same_image(acts[k], &img.a[k]) {
+                let i = first_diff(acts[k], &img.a[k]);
+                return Err(format!(
+                    "op {n}: after {describe} the %{} image differs from the byte-array model at byte {i}\n  model  {}\n  actual {}",
+                    area_letter(k as u8),
+                    hex(&img.a[k]),
+                    hex(acts[k])
+                ));
+            }
+        }
+    }
+    probe.label(format!("direct_ops={}", match ops.len() {
+        0..=4 => "0-4",
+        5..=15 => "5-15",
+        _ => "16+",
+    }));
+    if mistyped {
+        probe.label("direct=has_mistyped_write");
+    }
+    if interesting {
+        probe.nontrivial(&serde_json::to_vec(ops).unwrap_or_default());
+        probe.sample(json!({"search": "direct", "ops": ops.len()}));
+    }
+    Ok(())
+}
+
+// ---------------------------------------------------------------------------------------
+
+fn cycle_strategy() -> impl Strategy<Value = Case> {
+    // mostly uniform words (so that 17-way type choices stay balanced), a few boundary ones;
+    // long enough that the generator rarely runs off the end of the tape
+    let word = prop_oneof![
+        12 => any::<u32>(),
+        1 => (0u32..16).prop_map(|v| v << 28),
+        1 => Just(0u32),
+        1 => Just(u32::MAX),
+    ];
+    proptest::collection::vec(word, 500..1000).prop_map(|data| gen_case(&Tape { data }))
+}
+
+/// `tpv c07-show <replay.json>`: print the ST source and the plan of a saved case.
+pub fn helper(args: &[String]) -> Option<i32> {
+    if args.first().map(|s| s.as_str()) != Some("c07-show") {
+        return None;
+    }
+    let Some(path) = args.get(1) else {
+        eprintln!("usage: tpv c07-show <replay.json>");
+        return Some(2);
+    };
+    let text = match std::fs::read_to_string(path) {
+        Ok(t) => t,
+        Err(e) => {
+            eprintln!("{path}: {e}");
+            return Some(2);
+        }
+    };
+    let v: serde_json::Value = match serde_json::from_str(&text) {
+        Ok(v) => v,
+        Err(e) => {
+            eprintln!("{path}: {e}");
+            return Some(2);
+        }
+    };
+    match serde_json::from_value::<Case>(v["case"].clone()) {
+        Ok(case) => {
+            println!("{}", render(&case));
+            println!("image lengths {:?}, drivers {}, debug {}, safe {:?}", case.len, case.driver_seeds.len(), case.debug, case.safe);
+            for (i, c) in case.cycles.iter().enumerate() {
+                println!("cycle {i}: step={} fail_read={:?}", c.step, c.fail_read);
+                for op in &c.ops {
+                    println!(
+                        "   {} {} value {:#x} mistyped {:?}",
+                        if op.write { "write" } else { "read" },
+                        addr_text(op.area, op.size, op.byte, op.bit),
+                        op.value,
+                        op.mistyped
+                    );
+                }
+            }
+            Some(0)
+        }
+        Err(e) => {
+            eprintln!("not a C07 'cycle' case: {e}");
+            Some(2)
+        }
+    }
 }
 
 fn run(ctx: &mut RunCtx) {
-    ctx.inconclusive("check not built yet");
+    let tier = ctx.tier;
+    ctx.search("cycle", cycle_strategy(), tier.pick(12_000, 300_000), run_case);
+    ctx.search(
+        "direct",
+        proptest::collection::vec(dop_strategy(), 0..40),
+        tier.pick(40_000, 1_000_000),
+        run_direct,
+    );
+    let problems: Vec<String> = INFRA.with(|i| i.borrow().clone());
+    for p in problems {
+        ctx.inconclusive(format!("generator/infrastructure problem: {p}"));
+    }
 }
